@@ -188,6 +188,26 @@ def check_case(case):
                 cst = "constant-offset"
             bad("value-mismatch", "value", f"value={v!r}, documented loss={ref_val!r} (n={n})", variant=tag, nature=cst)
 
+    if spec["name"] in ("Logistic", "LogisticGroup") and np.abs(eta).max() > 0:
+        # the logistic loss and its derivative are finite at every finite predictor (log(1+exp(-z)) ~ -z): judged on
+        # saturated predictors too -- warm starts and badly scaled columns put solvers there
+        for big in (800., 5000.):
+            eb = eta * (big / np.abs(eta).max())
+            try:
+                vb = float(dfd.value(y, w, eb))
+                gb = np.asarray(dfd.raw_grad(y, eb), float)
+            except Exception as e:  # noqa
+                bad("exception", "value", repr(e)[:200], saturated=True)
+                break
+            rv, rg = loss.value(y, eb), loss.grad(y, eb)
+            if not math.isfinite(vb) or abs(vb - rv) > 1e-10 * (abs(rv) + 1.):
+                bad("value-mismatch", "value", f"saturated predictor (max |eta| = {big:g}): value={vb!r}, documented loss={rv!r}", saturated=True)
+                break
+            if not np.all(np.isfinite(gb)) or np.max(np.abs(gb - rg)) > 1e-10 / n:
+                bad("gradient-mismatch", "raw_grad", f"saturated predictor (max |eta| = {big:g}): raw_grad={gb.tolist()[:4]}, dloss/deta={np.asarray(rg).tolist()[:4]}", saturated=True)
+                break
+        classes.append("saturated-predictor")
+
     def cmp_vec(name, got, want, scale, **extra):
         got = np.asarray(got, float)
         want = np.asarray(want, float)
